@@ -52,12 +52,12 @@ CHECKS["C10"] = dict(
     gen=dict(
         quick=[_g10("edges", "edges-u1", 4, 1, entries=2, max=380),
                _g10("sim", "walks-a", 9, 0, num=12, max=120, salt=1)],
-        thorough=[_g10("edges", "edges-u1", 5, 1, entries=2, max=3500),
-                  _g10("edges", "edges-u2", 4, 2, entries=2, max=1200),
-                  _g10("edges", "edges-u3", 4, 3, entries=2, max=1200),
-                  _g10("edges", "edges-u4", 4, 4, entries=3, max=1200),
-                  _g10("edges", "edges-u5", 4, 5, entries=2, max=1200),
-                  _g10("exh", "exh-u1", 4, 1, entries=2, reads=0, max=2500),
+        thorough=[_g10("edges", "edges-u1", 5, 1, entries=2, max=2500),
+                  _g10("edges", "edges-u2", 4, 2, entries=2, max=800),
+                  _g10("edges", "edges-u3", 4, 3, entries=2, max=800),
+                  _g10("edges", "edges-u4", 4, 4, entries=3, max=800),
+                  _g10("edges", "edges-u5", 4, 5, entries=2, max=800),
+                  _g10("exh", "exh-u1", 4, 1, entries=2, reads=0, max=1500),
                   _g10("sim", "walks-a", 14, 0, num=60, max=500, salt=1),
                   _g10("sim", "walks-b", 14, 0, num=60, max=500, salt=2),
                   _g10("sim", "walks-c", 14, 0, num=60, max=500, salt=3),
